@@ -30,6 +30,23 @@ CHECKS = {
             'canonical schedule only (policy is sequential per component); upper bounds only; scripted task backend and hook answers',
             'DESIGN.md §3 C12'),
     # id: (level, technique, engine, text, note, design_ref)
+    'C03': ('exploration', 'exhaustive enumeration of abstract replicated DAGs x colliding names x reference spellings against an abstract-DAG replication model',
+            'E2',
+            'Four completely enumerated families (DAG structure x replica requests x aggregate flags x spellings; every ordered pair of names from the collision '
+            'alphabet incl. the same name in two stages; non-component references next to replicated producers; several paths under one reference) are expanded by '
+            'the real WorkflowGraph.graphFromFlowIR(primitive=False) and compared (node set, replica variable, parsed reference multiset, aggregate order, dangling '
+            'references, resolved command line token-wise, edges) with an expander that works on the abstract DAG and never rewrites strings. Five shapes of textual-rewrite '
+            'corruption are recorded as known findings.',
+            'regions with different counts that meet, aggregating components that also request replicas and literal names equal to <replicated name><digits> are grey zones and excluded',
+            'DESIGN.md §3 C03'),
+    'C08': ('model_checking', 'explicit-state breadth-first search over histories of the real mutators/queries with canonical state hashing and a from-scratch differential oracle',
+            'E2',
+            'Level-synchronous BFS whose transition function is the real FlowIRConcrete / FlowIRExperimentConfiguration mutator and query calls (24-25 operations) from three '
+            'initial documents; states are merged on a canonical key (active platform, typed raw(), component-dictionary view, cache keys with value digests); after every transition '
+            'every (component, platform) query is compared with the same query on an object built from scratch from raw(), and returned dicts are scrambled to detect shared '
+            'references. Depth 3 quick (4k states, 17k transitions), depth 5 thorough (71k states, 520k transitions). One defect found and fixed.',
+            'state merging is sound because the future of the object depends only on the description, the component dictionary and the cache; DoWhile documents and writes through return_copy=False references are not explored',
+            'DESIGN.md §3 C08'),
     'C09': ('exploration', 'exhaustive enumeration of the reference grammar x name-set contexts against an independent classifier/printer reference model',
             'E2',
             'The full product of the reference grammar (stage prefixes x component-like names, reserved/app-dep/manifest folders, absolute paths, '
@@ -62,6 +79,15 @@ CHECKS = {
             'compared exactly with a reference model written from the statement (plus leak classification).',
             'grey zones (empty values, $$, self-referencing keys, chains of references) excluded or leak-checked only',
             'DESIGN.md §3 C17'),
+    'C18': ('exploration', 'exhaustive enumeration of hostile archives / reference lists / manifests with a whole-sandbox before/after differ',
+            'E2',
+            'Every ordered tar archive of 1-2 members (3 in thorough; one seed-rotated 1/32 slice of the 3-member space in quick) over hostile names (.., nested .., absolute, '
+            'sibling-prefix) and member types (file, directory, symlink, hard link, incl. link-then-write patterns), every list of 1-2 copy/link/copyout references over 11 fixture '
+            'sources, link-then-extract combinations and every ordered manifest of 1-2 keys are staged/deployed by the real Job.stageIn / StageReference / '
+            'expandPackageToDirectory / experimentFromPackage inside a deep scratch sandbox; a physical snapshot (type, mode, size, mtime, link target, sha1) of the whole '
+            'sandbox before and after must differ only inside the target directory. Five escapes found and fixed.',
+            'everything (victims included) lives six directory levels inside a per-run scratch directory with a guard; over-rejection of harmless inputs is not judged',
+            'DESIGN.md §3 C18'),
     'C19': ('exploration', 'exhaustive enumeration of the option table derived from the FlowIR schema, differential dump/load oracle',
             'E2',
             'The option table is derived from FlowIR.type_flowir_component/default_component_structure so every expressible option of every backend is covered by construction; '
